@@ -102,17 +102,18 @@ class SymFloat(Sym):
     t    : z3 Float64 term
     quot : (a, k) the correctly rounded quotient a / k of an int-valued sym `a` and positive int k
     ival : an int-valued Sym/int whose value the float equals exactly (|v| < 2**53 established)
-    uf   : opaque real-valued quantity (z3 Real const via uninterpreted function) - congruence only
+    dec  : (neg, digits, e10) the double nearest to +-d1.d2...dn x 10^e10 (shortest-repr digits: d1 != 0, dn != 0)
     """
-    __slots__ = ("t", "quot", "ival")
+    __slots__ = ("t", "quot", "ival", "dec")
 
-    def __init__(self, t=None, quot=None, ival=None):
+    def __init__(self, t=None, quot=None, ival=None, dec=None):
         self.t = t
         self.quot = quot
         self.ival = ival
+        self.dec = dec
 
     def __repr__(self):
-        return f"SymFloat(t={self.t}, quot={self.quot}, ival={self.ival})"
+        return f"SymFloat(t={self.t}, quot={self.quot}, ival={self.ival}, dec={self.dec})"
 
 
 class SymStr(Sym):
